@@ -1,5 +1,5 @@
 #!/bin/sh
 # regenerates coq/_CoqProject (every .v file of coq/ and coq/gen/) and coq/Makefile when the file set changed
-cd "$(dirname "$0")/../coq"
+cd "${1:-$(dirname "$0")/../coq}"
 { echo "-Q . CJ"; ls gen/*.v *.v | LC_ALL=C sort; } > _CoqProject.new
 if ! cmp -s _CoqProject.new _CoqProject || [ ! -f Makefile ]; then mv _CoqProject.new _CoqProject; coq_makefile -f _CoqProject -o Makefile >/dev/null; else rm -f _CoqProject.new; fi
